@@ -176,8 +176,15 @@ Section NewChecks.
     end.
 End NewChecks.
 
-Definition check_set_pvalue (x : dval) : outcome := if dle x d0 || dgt x d1 then usage1 else Pass.
-Definition check_set_tolerance (x : dval) : outcome := if dlt x d0 then usage1 else Pass.
+(* nan = the range test starts with isnan(argument) (LV.Gen.ErrnoGen.gen_*_refuses_nan, read from the C text: fix DC90);
+   without it every comparison is false for NaN and NaN is accepted *)
+Definition check_set_pvalue_with (nan : bool) (x : dval) : outcome :=
+  if (nan && dnan x) || dle x d0 || dgt x d1 then usage1 else Pass.
+Definition check_set_tolerance_with (nan : bool) (x : dval) : outcome :=
+  if (nan && dnan x) || dlt x d0 then usage1 else Pass.
+Definition check_set_pvalue : dval -> outcome := check_set_pvalue_with gen_pvalue_refuses_nan.
+Definition check_set_p_tolerance : dval -> outcome := check_set_tolerance_with gen_p_tolerance_refuses_nan.
+Definition check_set_et_tolerance : dval -> outcome := check_set_tolerance_with gen_et_tolerance_refuses_nan.
 Definition check_set_iteration (n : Z) : outcome := if n <? 1 then usage1 else Pass.
 
 (* vnacal_new_solve: precondition, then the numeric kernels (oracle: None = solved, Some c = the
@@ -204,7 +211,8 @@ Definition check_new_some (s : nsum) (c : ncall) : outcome :=
   | NAdd a => check_add s a
   | NSetMError e lo hi n fv nf tr s16 => check_set_m_error s e lo hi n fv nf tr s16
   | NSetPvalue x => check_set_pvalue x
-  | NSetEtTol x | NSetPTol x => check_set_tolerance x
+  | NSetEtTol x => check_set_et_tolerance x
+  | NSetPTol x => check_set_p_tolerance x
   | NSetIter n => check_set_iteration n
   | NSolve k => check_solve s k
   end.
